@@ -373,7 +373,7 @@ CANARIES: Dict[str, Dict[str, Any]] = {
     ),
     "c18-tracking-modifies-forward": dict(
         props=["C18"], file="unit_scaling/transforms/_track_scales.py", module="unit_scaling.transforms._track_scales",
-        old="        ctx.node_meta = node_meta  # type: ignore\n        return t.clone()", new="        ctx.node_meta = node_meta  # type: ignore\n        return t.clone() + 0.0 * t.mean()",
+        old="        ctx.node_meta = node_meta  # type: ignore\n        return t.clone()", new="        ctx.node_meta = node_meta  # type: ignore\n        return t.clone() * 2.0",
         job="c18:ScaleTrackingAutogradFunction", expect=["forward_value_unchanged", "gradient_passes"],
     ),
     "c18-bwd-metrics-of-forward-tensor": dict(
